@@ -1,3 +1,5 @@
+//go:build go1.23
+
 // Package c19gen holds the generators of cryptographic values (curve points,
 // ephemeral keys, tss-lib save data) used by the C19 harnesses. It is kept
 // apart from c19wire so that the harnesses of the small packages do not link
